@@ -31,3 +31,30 @@ PROPS["C01"] = {
         "directions that cancels exactly would be invisible",
     ],
 }
+
+PROPS["C02"] = {
+    "title": "scalar operations are exact arithmetic modulo the group order n",
+    "level": "exploration",
+    "level_text": "Every Scalar method and raw scalar-fiat entry point of the real code is executed on steered corner operands "
+                  "(sum/difference/Montgomery windows for modulus n, values around (n-1)/2, special inversion arguments, Sum/Product "
+                  "vectors of length 0..6 with repeated and receiver-aliased entries, all 32-byte string classes, every alias "
+                  "pattern) and every logged result is decided by TLC against ScalarField.tla at full size; the oracle and the "
+                  "A-level algorithms (conditional subtraction, half-order borrow chain, folds) are model-checked exhaustively on "
+                  "miniature group orders. Sampling with an exact model oracle, not a proof.",
+    "level_note": "trusted: TLC, BigInt overrides (java.math.BigInteger, self-tested), the harness' logging; generators untrusted",
+    "exhaustive": [
+        {"spec": "MC_Scalar", "params": "mini163"},
+        {"spec": "MC_Scalar", "params": "mini211", "tiers": ("thorough",)},
+    ],
+    "drivers": [
+        {"driver": "scalar", "trace": "Trace_Scalar"},
+    ],
+    "require_classes": {"quick": ["sum_window", "diff_borrow", "mont_window", "mont_sqr_window", "decode_ge_n", "canon_reject",
+                                  "inv_zero", "inv_special", "alias_all", "alias_recv", "half_boundary", "gt_half", "le_half",
+                                  "sum_empty", "sum_alias", "sum_long", "prod_empty", "pow2k_panic", "near_n", "cneg_zero"]},
+    "assumptions": [
+        "the fiat limb code is sampled (steered corner operands + exact TLA+ oracle), not proved for every operand",
+        "TLC evaluates 256-bit arithmetic through java.math.BigInteger (BigInt.tla overrides), re-validated by SelfTest.tla",
+        "operands are placed through NewScalarFromCanonicalBytes / raw limbs and read back through Bytes()",
+    ],
+}
